@@ -175,4 +175,5 @@ func c28SplitRMW(c *core.Ctx) {
 		c.Note("operations with several critical sections of one mutex examined for split read-modify-write: %d", nOps)
 	})
 	c28ViewConsistency(c)
+	c28Transient(c)
 }
